@@ -10,7 +10,7 @@ variants = [
   {name = "import", safety_tier = "thorough", enforce = "LegalizerBase_importLegalization", defines = ["H_IMPORT"]},
   {name = "abacusCheck", enforce = "AbacusLegalizer_check", defines = ["H_ABACUSCHECK"], replace = ["LegalizerBase_check"]},
   {name = "evaluate", enforce = "AbacusLegalizer_evaluatePlacement", defines = ["H_EVALUATE"], replace = ["RowLegalizer_getCost", "LegalizerBase_getOrientation"]},
-  {name = "run", enforce = "Legalizer_run", defines = ["H_RUN"], replace = ["LegalizerBase_computeCellOrder", "Legalizer_runTetris", "Legalizer_runAbacus", "LegalizerBase_checkAllPlaced"]},
+  {name = "run", properties = ["C01", "C11"], enforce = "Legalizer_run", defines = ["H_RUN"], replace = ["LegalizerBase_computeCellOrder", "Legalizer_runTetris", "Legalizer_runAbacus", "LegalizerBase_checkAllPlaced"]},
 ]
 assumptions = ["checker soundness: AbacusLegalizer::run ends in check(); a normal return implies that every cell recorded in a row lies inside that row segment and does not overlap the next cell of the row (ghost row, ghost position); the segments themselves are free row space by C15",
                "counting lemma (paper): when row-high cells without row restrictions have total width at most the free width less one maximum cell width per segment, some segment always has remainingSpace >= width, so placeCell places every cell and checkAllPlaced does not throw",
@@ -279,8 +279,10 @@ rewrites = [['rowLegalizers_\[row\]\.remainingSpace\(\)', 'RowLegalizer_remainin
 #ifdef H_RUN
 typedef struct ColoquinteParametersL { struct { double orderingWidth, orderingY, orderingHeight; } legalization; } ColoquinteParametersL;
 bool g_ordered, g_tetris, g_abacus, g_checked;
+double g_ow, g_oy, g_oh;   /* ghost copies of the three ordering parameters */
 int *LegalizerBase_computeCellOrder(const LegalizerBase *this, float wx, float ww, float wy, float wh)
-__CPROVER_requires(1) __CPROVER_ensures(g_ordered) __CPROVER_assigns(g_ordered);
+/* C11: computeCellOrder(weightX, weightWidth, weightY, weightHeight) receives x with weight 1 and each ordering parameter in the slot of its name */
+__CPROVER_requires(wx == 1.0f && ww == (float)g_ow && wy == (float)g_oy && wh == (float)g_oh) __CPROVER_ensures(g_ordered) __CPROVER_assigns(g_ordered);
 void Legalizer_runTetris(LegalizerBase *this, const int *cells)
 __CPROVER_requires(g_ordered) __CPROVER_ensures(!verif_exc ==> g_tetris) __CPROVER_assigns(verif_exc, g_tetris);
 void Legalizer_runAbacus(LegalizerBase *this, const int *cells)
@@ -290,6 +292,7 @@ void LegalizerBase_checkAllPlaced(const LegalizerBase *this)
 __CPROVER_requires(g_abacus) __CPROVER_ensures(!verif_exc ==> g_checked) __CPROVER_assigns(verif_exc, g_checked);
 void Legalizer_run(LegalizerBase *this, const ColoquinteParametersL *params_p)
 __CPROVER_requires(__CPROVER_is_fresh(this, sizeof(*this)) && __CPROVER_is_fresh(params_p, sizeof(*params_p)) && verif_exc == 0 && !g_ordered && !g_tetris && !g_abacus && !g_checked)
+__CPROVER_requires(g_ow == params_p->legalization.orderingWidth && g_oy == params_p->legalization.orderingY && g_oh == params_p->legalization.orderingHeight && g_ow >= -1.0e6 && g_ow <= 1.0e6 && g_oy >= -1.0e6 && g_oy <= 1.0e6 && g_oh >= -1.0e6 && g_oh <= 1.0e6)
 /* C01: run() returns normally only after the final all-placed check passed */
 __CPROVER_ensures(!verif_exc ==> g_checked)
 __CPROVER_assigns(verif_exc, g_ordered, g_tetris, g_abacus, g_checked)
